@@ -305,9 +305,9 @@ def keepalive(rng):
     plan = []
     for j in range(k):
         steps.append({'op': 'connect', 'peer': j})
-        mode = rng.choice(['silent', 'silent_after_hs', 'ka_only', 'live', 'live_then_silent', 'edge', 'fetching_silent', 'fetching_ka'])
+        mode = rng.choice(['silent', 'silent_after_hs', 'ka_only', 'live', 'live_then_silent', 'edge', 'fetching_silent', 'fetching_ka', 'late_hs'])
         plan.append(mode)
-        if mode != 'silent':
+        if mode not in ('silent', 'late_hs'):
             steps.append(send(j, hs()))
         if mode.startswith('fetching'):
             # falls silent (or sends nothing but keep-alives) while a piece is being fetched from it:
@@ -317,6 +317,7 @@ def keepalive(rng):
     t = 0
     q = KA // 4
     horizon = rng.choice([13, 17]) * q
+    sent_late = {}
     live_kinds = ['Have', 'Interested', 'NotInterested', 'Choke', 'Unchoke', 'Cancel', 'Bitfield', 'Request']
     while t < horizon:
         dt = rng.choice([q, q, 2 * q, 3 * q, q - 1, q + 1, 4 * q - 2])
@@ -324,6 +325,10 @@ def keepalive(rng):
         t += dt
         for j in range(k):
             m = plan[j]
+            if m == 'late_hs' and t > 2 * KA and not sent_late.get(j):
+                # the first message of this connection arrives after two silent intervals: it counts as life
+                sent_late[j] = True
+                steps.append(send(j, hs()))
             if m in ('ka_only', 'fetching_ka') and rng.random() < 0.8:
                 steps.append(send(j, fr('KeepAlive')))
             if m == 'live' or (m == 'live_then_silent' and t < horizon // 2) or (m == 'edge' and rng.random() < 0.5):
@@ -769,6 +774,28 @@ def slots(rng):
     return sc
 
 
+def late_joiner(rng):
+    """C14: ten or more interested peers that never sent a bitfield (so none of them holds a slot yet) have reported
+    their rates; a newcomer is unchoked on its bitfield just before a rotation and has no rates yet.  Whatever the
+    rotation does with unrated peers, the slot bound holds afterwards."""
+    gname = 'g4'
+    pl, files, n, plens = geo(gname)
+    k = rng.choice([10, 11, 12])
+    peers = [peer(j, {rng.randrange(n)}, serve='none') for j in range(k + 1)]
+    steps = [{'op': 'advance', 'ms': 10}]
+    for j in range(k):
+        steps += [{'op': 'connect', 'peer': j}, send(j, hs()), send(j, fr('Have', peers[j]['has'][0])), send(j, fr('Interested')),
+                  {'op': 'rates', 'peer': j, 'dl': rng.randrange(10), 'ul': 1 + rng.randrange(10)}]
+    steps.append({'op': 'advance', 'ms': rng.choice([25000, 35000]), 'slice': 2500})
+    steps += [{'op': 'connect', 'peer': k}, send(k, hs()), send(k, bf(peers[k]['has'])), send(k, fr('Interested'))]
+    for rnd in range(3):
+        steps.append({'op': 'advance', 'ms': 10000, 'slice': 2500})
+    steps.append({'op': 'advance', 'ms': 300})
+    sc = base(gname, peers, steps, [{'k': 'peers', 'peers': []}], pat=rng.randrange(251))
+    sc['family'] = 'slots'
+    return sc
+
+
 def dupaddr(rng):
     """C12/C02/C08: a second connection arrives from an address the client is already connected to (a peer whose
     outgoing connections use its listening port, a quick reconnect from the same port, or a peer playing
@@ -904,9 +931,12 @@ def orphaned(rng):
     late_c = rng.random() < 0.5
     if not late_c:
         steps += [{'op': 'connect', 'peer': 2}, send(2, hs(), bf(set(range(n)) - {x})), send(2, fr('Unchoke')), {'op': 'advance', 'ms': 300}]
-    if rng.random() < 0.5:
-        steps.append(send(0, fr('Choke')))                  # it chokes us first, then goes away
-    steps += [{'op': 'close', 'peer': 0}, {'op': 'advance', 'ms': 100}]
+    how = rng.choice(['close', 'choke_close', 'choke_stay'])
+    if how != 'close':
+        steps.append(send(0, fr('Choke')))                  # it chokes us first ...
+    if how != 'choke_stay':
+        steps.append({'op': 'close', 'peer': 0})            # ... then goes away (or stays, choking us for good)
+    steps.append({'op': 'advance', 'ms': 100})
     if late_c:
         steps += [{'op': 'connect', 'peer': 2}, send(2, hs(), bf(set(range(n)) - {x})), send(2, fr('Unchoke'))]
     steps.append({'op': 'advance', 'ms': 25000, 'slice': 1000})
@@ -1044,4 +1074,44 @@ def accept_limit(rng):
     steps.append({'op': 'advance', 'ms': 100})
     sc = base(gname, peers, steps, [{'k': 'peers', 'peers': []}], pat=rng.randrange(251))
     sc['family'] = 'accept_limit'
+    return sc
+
+
+def out_of_order(rng):
+    """C10: the blocks of a piece are answered in another order than they were asked for, in particular the last block
+    of the piece before an earlier one: the piece is complete when the last OUTSTANDING block arrives, not before."""
+    gname = rng.choice(['g3', 'g2'])
+    pl, files, n, plens = geo(gname)
+    x = 0                                   # a piece of three blocks in both geometries
+    bl = blocks(plens[x])
+    a = peer(0, {x}, serve='none')
+    b = peer(1, set(range(n)), serve='good')
+    order = rng.choice([[0, 2, 1], [0, 2, 1], [1, 0, 2], [0, 1, 2]])
+    steps = [{'op': 'connect', 'peer': 0}, send(0, hs(), bf({x})), send(0, fr('Unchoke'))]
+    for bi in order:
+        steps.append(send(0, fr('Piece', x, bl[bi][0], bl[bi][1])))
+    steps += [{'op': 'advance', 'ms': 50}, {'op': 'connect', 'peer': 1}, send(1, hs(), bf(range(n))), send(1, fr('Unchoke')),
+              {'op': 'advance', 'ms': 25000, 'slice': 1000}]
+    sc = base(gname, [a, b], steps, [{'k': 'peers', 'peers': []}], pat=rng.randrange(251))
+    sc['family'] = 'honest'
+    sc['essential'] = [1]
+    return sc
+
+
+def choke_idle_have(rng):
+    """C12: a peer that unchoked us when there was nothing to fetch from it chokes us again and then announces a piece:
+    nothing may be reserved for (or requested from) a peer that is choking us."""
+    gname = rng.choice(['g4', 'g2', 'g12'])
+    pl, files, n, plens = geo(gname)
+    q = rng.randrange(n)
+    a = peer(0, {q}, serve='none')
+    b = peer(1, set(range(n)), serve='good')
+    steps = [{'op': 'connect', 'peer': 0}, send(0, hs(), bf(set())), send(0, fr('Unchoke')), send(0, fr('Choke')), send(0, fr('Have', q)),
+             {'op': 'advance', 'ms': 50}]
+    if rng.random() < 0.5:
+        steps += [send(0, fr('Unchoke')), {'op': 'advance', 'ms': 50}]
+    steps += [{'op': 'connect', 'peer': 1}, send(1, hs(), bf(range(n))), send(1, fr('Unchoke')), {'op': 'advance', 'ms': 25000, 'slice': 1000}]
+    sc = base(gname, [a, b], steps, [{'k': 'peers', 'peers': []}], pat=rng.randrange(251))
+    sc['family'] = 'honest'
+    sc['essential'] = [1]
     return sc
